@@ -132,7 +132,8 @@ func RunDiam(sc *Scenario) *History {
 			t := rt.NewTask(tk.ID, fmt.Sprintf("peer%d", tk.ID))
 			t.Adopt()
 			defer rt.Release()
-			time.Sleep(time.Duration(tk.StartNs + 1 + int64(tk.ID%1000)*3))
+			now0 := rt.Now()
+			time.Sleep(time.Duration(rt.AlignAt(rt.SlotOf(tk.ID), now0+tk.StartNs+1) - now0))
 			cl := newDiamClient(addr)
 			for i := range tk.Ops {
 				op := &tk.Ops[i]
